@@ -478,6 +478,28 @@ def oracle(case, obs, messages, flags):
         elif projkeys != set(decls) and projkeys != {k for k in Pcd['opts'] if ':' in k}:
             fail(i, 'a new option appears, a removed one vanishes', 'option-set-mismatch:' + tag,
                  'project options %s, declared %s' % (sorted(projkeys), sorted(decls)))
+        # the edited declaration is in force: after a command that loaded the option files and
+        # saved, an option of unchanged type has the declared choices / range, and its stored value
+        # satisfies them ("a changed choice list keeps the old value when still valid and otherwise
+        # falls back to the new default")
+        if saved:
+            for key, d in decls.items():
+                if key not in Qcd['opts']:
+                    continue
+                o = Qcd['opts'][key]
+                dk = decl_kind(d)
+                if o[0][0] != dk[0]:
+                    continue             # type change: not judged
+                if o[0] != dk:
+                    was = Pcd['opts'][key][1] if (Pcd is not None and key in Pcd['opts']) else None
+                    want = None if was is None else (was if satisfies(dk, was) else decl_default(d))
+                    fail(i, 'a changed choice list / range is in force: the old value is kept when still valid, otherwise the new default',
+                         'declaration-not-in-force:' + key,
+                         'the option file declares %s with %r, but the saved option still has %r (value %r%s)'
+                         % (key, dk, o[0], o[1], '' if want is None or want == o[1] else ', expected %r' % want))
+                elif not satisfies(dk, o[1]):
+                    fail(i, 'stored values are valid for the declared choices / range', 'stored-value-invalid:' + key,
+                         '%s holds %r, which the declaration %r does not accept' % (key, o[1], dk))
         # the assignments of this command (for a first configuration: of the whole record)
         assigns = [[a[0], a[2]] for a in args if a[1] == 'D']
         if first_like:
